@@ -23,7 +23,7 @@ def sh(cmd, **kw):
 
 
 def main():
-    pid, src = sys.argv[1].upper(), sys.argv[2]
+    pid, src = sys.argv[1].upper(), os.path.abspath(sys.argv[2])
     tier = "quick"
     checks = [pid]
     if "--tier" in sys.argv:
@@ -67,7 +67,7 @@ def main():
             dst = os.path.join(VERIF, "seeded", pid + (("-" + sys.argv[sys.argv.index("--name") + 1]) if "--name" in sys.argv else ""))
             os.makedirs(dst, exist_ok=True)
             for f in ("patch.diff", "demo.py", "notes.md"):
-                if os.path.exists(os.path.join(src, f)):
+                if os.path.exists(os.path.join(src, f)) and os.path.realpath(os.path.join(src, f)) != os.path.realpath(os.path.join(dst, f)):
                     shutil.copy(os.path.join(src, f), os.path.join(dst, f))
             out["stored"] = dst
         print(json.dumps(out, indent=1))
